@@ -1,4 +1,5 @@
 import XlModel.Lemmas.Save3
+import XlModel.Lemmas.SaveWriters
 import XlModel.Lemmas.SaveCols
 import XlModel.Lemmas.Grid4
 import XlModel.Generated.FactsC01
@@ -315,6 +316,84 @@ theorem finding_overlapping_merges_normalised :
     let ms : List Grid.MObj := [⟨⟨4, 3, 4, 4⟩, ⟨4, 3, 4, 4⟩⟩, ⟨⟨3, 2, 4, 3⟩, ⟨3, 2, 4, 3⟩⟩]
     Grid.mergeOverlapCells ms ≠ ms ∧ (Grid.mergeOverlapCells ms).map (·.ref) = [⟨3, 2, 4, 4⟩] := by
   decide
+
+/-! ## the other part writers: a writer must not consume what it renders from -/
+
+open SaveWriters in
+/-- `writeToZip` runs these writers in this order, and each destroys exactly this File state
+(regenerated from file.go / the writers' bodies): a writer that starts deleting or clearing a
+field — e.g. `delete(f.VMLDrawing, path)` in `vmlDrawingWriter`, the seeded change C02d/1, or a
+moved `f.SharedStrings = nil` in `sharedStringsLoader`, C02a/2 — breaks this obligation. -/
+theorem facts_writers_and_what_they_clear :
+    Facts.C02.saveWriters = ["calcChainWriter", "commentsWriter", "contentTypesWriter", "drawingsWriter",
+      "volatileDepsWriter", "vmlDrawingWriter", "workBookWriter", "workSheetWriter", "relsWriter",
+      "sharedStringsLoader", "sharedStringsWriter", "styleSheetWriter", "themeWriter"]
+    ∧ Facts.C02.writerClears = [
+      ("calcChainWriter", []), ("commentsWriter", []), ("contentTypesWriter", []), ("drawingsWriter", []),
+      ("volatileDepsWriter", []), ("vmlDrawingWriter", []),
+      ("workBookWriter", ["f.WorkBook.DecodeAlternateContent=nil"]),
+      ("workSheetWriter", ["sheet.DecodeAlternateContent=nil", "f.Sheet.Delete", "f.checked.Delete"]),
+      ("relsWriter", []),
+      ("sharedStringsLoader", ["f.tempFiles.Delete", "f.SharedStrings=nil", "f.tempFiles.Delete",
+        "f.sharedStringItem=nil", "f.sharedStringTemp=nil"]),
+      ("sharedStringsWriter", []), ("styleSheetWriter", []), ("themeWriter", [])]
+    ∧ Facts.C02.workbookAltPersisted = true ∧ Facts.C02.worksheetAltPersisted = true
+    ∧ vmlWriterDrops = false := by decide
+
+/-- (generic) a non-consuming writer renders the same part after any number of saves -/
+theorem writer_idempotent {σ β : Type} (w : SaveWriters.Writer σ β) (h : SaveWriters.NonConsuming w)
+    (n : Nat) (s : σ) : w.render (SaveWriters.iter w.post n s) = w.render s :=
+  SaveWriters.iter_post w h n s
+
+/-- (clause "saving twice … identical content", workbook and worksheet `mc:AlternateContent`)
+the writers of the code as it is — the encode field is built only under
+`if DecodeAlternateContent != nil` and therefore survives the clearing of the decode-only field
+— are non-consuming: the element is written by every save, not only by the first. -/
+theorem altContent_writers_nonConsuming :
+    SaveWriters.NonConsuming SaveWriters.workbookAltWriter ∧
+    SaveWriters.NonConsuming SaveWriters.worksheetAltWriter := by
+  have h1 : Facts.C02.workbookAltPersisted = true := by decide
+  have h2 : Facts.C02.worksheetAltPersisted = true := by decide
+  unfold SaveWriters.workbookAltWriter SaveWriters.worksheetAltWriter
+  rw [h1, h2]
+  exact ⟨SaveWriters.altWriter_nonConsuming, SaveWriters.altWriter_nonConsuming⟩
+
+/-- the seeded change C02d/2 in the model: a writer that rebuilds the element from the decode-only
+field alone loses it on the second save. -/
+theorem finding_altContent_writer_consuming :
+    ¬ SaveWriters.NonConsuming (SaveWriters.altWriter false) := by
+  intro h
+  have := (h ⟨none, some "x15ac:absPath"⟩).1
+  simp [SaveWriters.altWriter, SaveWriters.altNext] at this
+
+/-- (VML drawings: form controls, comments) with the writer of the code as it is, every history
+of AddFormControl/AddComment, reads and saves — saves at arbitrary positions — answers and ends
+like the specification in which saving does nothing; in particular the stale-memo reader
+`decodeVMLDrawingReader` is never consulted while a drawing is loaded. -/
+theorem vml_save_pure : ∀ (ops : List SaveWriters.VOp) (s : SaveWriters.Vml) (v : SaveWriters.Shapes),
+    s.Inv → s.cur = v →
+    (SaveWriters.vrun SaveWriters.vmlWriterDrops s ops).2 = (SaveWriters.vspec v ops).2 ∧
+    (SaveWriters.vrun SaveWriters.vmlWriterDrops s ops).1.cur = (SaveWriters.vspec v ops).1 := by
+  have hd : SaveWriters.vmlWriterDrops = false := by decide
+  rw [hd]
+  intro ops
+  induction ops with
+  | nil => intro s v _ hc; exact ⟨rfl, hc⟩
+  | cons o os ih =>
+    intro s v hi hc
+    obtain ⟨e1, i1, c1⟩ := SaveWriters.vstep_sim s v o hi hc
+    obtain ⟨e2, c2⟩ := ih _ _ i1 c1
+    simp only [SaveWriters.vrun, SaveWriters.vspec]
+    exact ⟨by rw [e1, e2], c2⟩
+
+/-- the seeded change C02d/1 in the model: if the writer drops the loaded drawing, then
+add A1 · save · read · add B5 · save · read reports `[A1]` — the memo of the first read — and not
+`[A1, B5]`. -/
+theorem finding_vml_writer_dropping :
+    (SaveWriters.vrun true ⟨none, none, none⟩
+      [.add "A1", .save, .read, .add "B5", .save, .read]).2.getLast? = some (some ["A1"])
+    ∧ (SaveWriters.vspec [] [.add "A1", .save, .read, .add "B5", .save, .read]).2.getLast?
+        = some (some ["A1", "B5"]) := by decide
 
 /-! ## an open finding that the history theorem's hypothesis `HistOk` stands for -/
 
